@@ -67,3 +67,19 @@ Lemma option_changes_only_the_table_rule :
   | _, _ => False
   end.
 Proof. reflexivity. Qed.
+
+(* ---- C15: the results name `property`, from which the build actions read the arbitrary properties (Actions.properties_of),
+   is attached to no element of the grammar used with the option off, nor to a Forward body; with the option on it is attached
+   at three places (table settings, table body, column settings) ---- *)
+Fixpoint count_rname (fuel : nat) (name : pystr) (e : pexpr) : nat :=
+  match fuel with
+  | O => 0
+  | S f => (match a_rname (e_attrs e) with Some n => if str_eqb n name then 1 else 0 | None => 0 end)
+           + fold_right (fun c acc => count_rname f name c + acc) 0 (children_of (e_core e))
+  end.
+Definition forward_bodies : list pexpr :=
+  flat_map (fun id => match gen_env id with Some e => [e] | None => [] end) [1%N; 2%N; 3%N; 4%N; 5%N; 6%N; 7%N; 8%N].
+Lemma property_name_only_with_the_option :
+  count_rname 60 (s2l "property") gen_top_off = 0 /\ count_rname 60 (s2l "property") gen_top_on = 3
+  /\ forallb (fun e => Nat.eqb (count_rname 60 (s2l "property") e) 0) forward_bodies = true.
+Proof. repeat split; reflexivity. Qed.
